@@ -502,6 +502,20 @@ def observe (prop : String) (m : MonState) (op : Op) (o : Obs) (ghosts : List Gh
     let (m, f2) := applyGhosts m ghosts none
     (m, filt prop (if f0.isSome then f0 else if f1.isSome then f1 else f2))
 
+/-- checks that need no state at all: evaluated on the implementation's outputs even after the
+    model has stopped (a panic on both sides, or an oracle choice the model cannot follow) -/
+def stateless (prop : String) (op : Op) (o : Obs) : Fail :=
+  match op, o with
+  | .drain _, .out (.drained _ ns) =>
+    filt prop (ns.findSome? fun n => match n with
+      | .forward p _ =>
+        if p.retain && p.payload.isEmpty then
+          some ("c15-retained-unexpected", "retained-flagged forward with an empty payload: an empty retained publish must clear the topic, not be stored or replayed")
+        else if p.qos != 0 && p.pkid == 0 then some ("c09-zero-pkid", "QoS>0 forward with packet id 0")
+        else none
+      | _ => none)
+  | _, _ => none
+
 /-- checks at a point where the harness drove the router to idle and every client acknowledged -/
 def atIdle (prop : String) (m : MonState) : Fail :=
   -- C06: nothing owed (checked for every live link, independently of the delivery checks below)
